@@ -2,7 +2,7 @@
 //! C12 (help lists exactly what is accepted) and C16 (generated documentation).
 use crate::def::*;
 
-pub const DOC_FIELDS: usize = 15;
+pub const DOC_FIELDS: usize = 18;
 
 fn h(n: Names, t: &str) -> Names {
     n.help(t)
@@ -37,6 +37,12 @@ pub fn doc_field(k: usize) -> P {
         .many(),
         13 => arg(h(Names::both('q', "quebec"), "repeated argument\n\nsecond paragraph only in full help"), "QUE").many(),
         14 => P::Optional(P::Seq(vec![arg(h(Names::long("romeo"), "group member one"), "ROM"), P::Switch(h(Names::short('s'), "group member two"))]).bx(), false),
+        // a titled group whose first member is hidden: the visible rest must still be listed
+        15 => P::GroupHelp(P::Seq(vec![P::Switch(h(Names::long("tango-hidden"), "hidden first member")).hide(), arg(h(Names::long("tango"), "visible group member"), "TAN"), P::Switch(h(Names::short('t'), "another visible member"))]).bx(), DocSpec::plain("Group with a hidden head")),
+        // a flag and an argument sharing name and help text are two different items
+        16 => P::Alt(vec![P::Map(P::ReqFlag(h(Names::long("uniform"), "dual purpose item")).bx(), "f".into()), P::Map(arg(h(Names::long("uniform"), "dual purpose item"), "UNI").bx(), "a".into())]).opt(),
+        // a titled group starting with `pure`
+        17 => P::WithGroupHelp(P::Seq(vec![P::Pure(Val::U), arg(h(Names::both('w', "whiskey-arg"), "member after pure"), "WHI")]).bx(), DocSpec::plain("Group starting with pure")),
         _ => unreachable!(),
     }
 }
@@ -58,7 +64,9 @@ pub fn doc_tails() -> Vec<Vec<P>> {
         vec![pos("NOHELP", None, Strict::Any).opt()],
         vec![pos("STRICTP", Some("strict positional help"), Strict::Strict).many()],
         vec![P::Alt(vec![c1.clone(), c2.clone(), c3]).opt()],
-        vec![c1],
+        vec![c1.clone()],
+        // a command sharing a titled group with a flag that comes first
+        vec![P::GroupHelp(P::Seq(vec![P::Switch(h(Names::long("victor"), "flag next to a command")), c1]).bx(), DocSpec::plain("Flag and command together"))],
     ]
 }
 
